@@ -320,7 +320,7 @@ func init() {
 				}
 			}
 			// one configuration under the lax virtual clock (timers, if any, may fire at any time)
-			js = append(js, JobSpec{Group: "pipe", Harness: "VUnbound", Mode: "bmc", Params: map[string]int{"cap": 0, "n": 2, "mode": 0, "recv": 1, "clock": 1}, K: 40})
+			js = append(js, JobSpec{Group: "pipe", Harness: "VUnbound", Mode: "bmc", Params: map[string]int{"cap": 0, "n": 2, "mode": 0, "recv": 1, "clock": 1}, K: 24})
 			return js
 		},
 	})
@@ -350,18 +350,17 @@ func init() {
 	})
 	reg(&PropSpec{
 		ID: "C13", Level: "model_checking",
-		Explanation: bmcText + "C13: Throttling's pacer and data goroutines with the virtual clock. LAX clock (ticks of any size at any step; producer, consumer, goroutines and timers arbitrarily late, so idle periods followed by bursts are included): every element delivered once, in order, output closes, and the delivery instants satisfy d[i+B] - d[i] >= interval for B = 2*ops+1+c (no window of length interval sees more than B deliveries). URGENT clock, pre-filled input, always-ready consumer: floor(i/ops)*interval <= d[i] <= floor(i/ops)*interval + interval. Bounds: ops=1, c=0, n=4 (quick); ops in {1,2}, c in {0,1} where the query finishes (thorough).",
-		Assumptions: append([]string{"time.After never fires early (virtual clock); real-time behaviour of a loaded machine is outside the claim"}, bmcAssumptions...),
+		Explanation: bmcText + "C13: Throttling's pacer and data goroutines under the URGENT virtual clock (time advances only when no goroutine can move, and then exactly to the earliest pending timer - the rule of testing/synctest), pre-filled input, always-ready consumer: every element is delivered once, in order, the output closes, and element i is delivered no earlier than floor(i/ops)*interval and no later than one interval after that. Bounds: ops=1 n=3 (quick); ops in {1,2}, n up to 4 (thorough). NOT decided: the burst bound '2*ops+1+c deliveries per window' under arbitrary arrival patterns and late goroutines (lax clock): the harness exists (VThrottleRate) but its unsat query did not finish within 15 minutes for ops=1, c=0, n=4, so that sub-claim is outside what this check establishes.",
+		Assumptions: append([]string{"time.After never fires early (virtual clock); real-time behaviour of a loaded machine is outside the claim", "the per-window burst bound under idle-then-burst arrival patterns is NOT covered (query too hard for the available solvers within the time budget)"}, bmcAssumptions...),
 		Jobs: func(tier string) []JobSpec {
 			js := []JobSpec{
-				{Group: "pipe", Harness: "VThrottleRate", Mode: "bmc", Params: map[string]int{"ops": 1, "cap": 0, "n": 4, "interval": 10, "clock": 1}, K: 40},
 				{Group: "pipe", Harness: "VThrottlePace", Mode: "bmc", Params: map[string]int{"ops": 1, "n": 3, "interval": 10, "clock": 2}, K: 40},
+				{Group: "pipe", Harness: "VThrottlePace", Mode: "bmc", Params: map[string]int{"ops": 1, "n": 2, "interval": 7, "clock": 2}, K: 40},
 			}
 			if tier == "thorough" {
 				js = append(js,
-					JobSpec{Group: "pipe", Harness: "VThrottleRate", Mode: "bmc", Params: map[string]int{"ops": 1, "cap": 1, "n": 5, "interval": 10, "clock": 1}, K: 48},
-					JobSpec{Group: "pipe", Harness: "VThrottleRate", Mode: "bmc", Params: map[string]int{"ops": 2, "cap": 0, "n": 6, "interval": 10, "clock": 1}, K: 60},
 					JobSpec{Group: "pipe", Harness: "VThrottlePace", Mode: "bmc", Params: map[string]int{"ops": 2, "n": 4, "interval": 10, "clock": 2}, K: 48},
+					JobSpec{Group: "pipe", Harness: "VThrottlePace", Mode: "bmc", Params: map[string]int{"ops": 1, "n": 4, "interval": 10, "clock": 2}, K: 48},
 				)
 			}
 			return js
